@@ -2,7 +2,7 @@
 import json, os
 from ..facts import ty_adt, tystr, walk_ty, place_local, place_proj, op_place, strip_refs
 from ..cfg import CFG, Tracer
-from .. import dt, instance, gentypes, minterp, core
+from .. import dt, inline, instance, gentypes, minterp, core
 from . import c17
 
 TY = "conjure_codegen::types::type_::Type"
@@ -53,7 +53,7 @@ def run(ctx):
                 got[vn] = f"unsupported({e})"
         tables[pred] = got
         for vn, exp in rows.items():
-            if vn.startswith("_"):
+            if vn.startswith("_") or exp == "see reference_rows":
                 continue
             ok = got.get(vn) == exp or (isinstance(exp, list) and got.get(vn) in exp)
             ctx.check(ok, "R2.1", b.loc(), f"{pred}|{vn}", f"Context::{pred}({vn}) = {got.get(vn)}; wire specification: {exp} ({rows.get('_why', '')})", instance=f"{pred}({vn}) = {got.get(vn)}")
@@ -78,22 +78,32 @@ def run(ctx):
             a, e = tables["is_required"].get(vn), tables["is_empty_method"].get(vn)
             ctx.check((a is True and e == "None") or (a is False and e == "Some"), "R2.1", ctxb["is_required"].loc(), f"siblings|{vn}", f"is_required({vn}) = {a} but is_empty_method({vn}) = {e}: a type is required exactly when it has no emptiness method",
                       instance=f"{vn}: required={a} / emptiness={e}")
-    # named types: alias transparent, others terminal
-    for name, exp in spec["named"].items():
-        b = next((x for x in cg.bodies if x.name == name and x.id.startswith("conjure_codegen::context::")), None)
-        if b is None:
-            ctx.violation("R2.1", "conjure_codegen", f"{name}|anchor", f"{name} not found")
+    # named types: an alias is transparent (recursion on its target), every other definition is terminal — evaluated holistically
+    # (helpers inlined), so merging / splitting the *_ref helper functions does not change the verdict
+    tdn = [v["name"] for v in F.adt(TD)["variants"]]
+    kref = tyv.index("Reference")
+    preds = set(spec["predicates"])
+    for pred, rows in spec["reference_rows"].items():
+        if pred.startswith("_"):
             continue
-        cfg = CFG(b)
-        tdn = [v["name"] for v in F.adt(TD)["variants"]]
-        rec_arms = set()
-        for bb, t in b.calls():
-            if t["call"].get("local") and t["call"]["name"] == exp["alias_calls"]:
-                for sbb, allowed, allv in dt.edge_conditions(cfg, bb):
-                    atom = dt.switch_atom(b, sbb)
-                    if atom[0] == "discr" and TD in tystr(dt.place_ty(b, F, atom[1]) or {}):
-                        rec_arms |= dt.allowed_variants(allowed, allv, tdn)
-        ctx.check(rec_arms == {"Alias"}, "R2.1", b.loc(), f"{name}|alias-transparent", f"{name}: recursion into {exp['alias_calls']} happens for {sorted(rec_arms)}; only aliases are transparent", instance=f"{name}: Alias -> {exp['alias_calls']}(target)")
+        b = ctxb.get(pred)
+        if b is None:
+            continue
+        for vi, vn in enumerate(tdn):
+            I2 = minterp.Interp(F, cg, inline=lambda d_, rid, bid=b.id: rid != bid and rid.startswith("conjure_codegen::context::") and rid.split("::")[-1] not in preds, max_depth=4)
+            I2.oracle = {TD: vi}
+            args = [("sym", "self")] + [("sym", f"a{j}") for j in range(b.argc - 2)] + [minterp.adt(TY, kref, [("sym", "name")])]
+            try:
+                got_ = classify(I2, I2.run(b, args), pred)
+            except minterp.Unsupported as e:
+                got_ = f"unsupported({e})"
+            exp = rows.get(vn)
+            if exp == "recurse(alias-target)":
+                ok = isinstance(got_, str) and got_.startswith("recurse(") and "alias" in got_ and "name" in got_
+            else:
+                ok = got_ == exp and type(got_) == type(exp)
+            ctx.check(ok, "R2.1", b.loc(), f"{pred}|Reference|{vn}", f"Context::{pred}(Reference to {vn}) = {got_}; wire specification: {exp} (aliases are transparent, other named types terminal)",
+                      instance=f"{pred}(Reference -> {vn}) = {got_}")
     # ---------------- R2.2 templates
     tm = F.tmpl()
     if tm is not None:
@@ -117,11 +127,43 @@ def run(ctx):
             fn, q, _ = seen[k]
             return f"{fn['file']}:{q['line']}"
         ctx.check("rename" in seen and not seen["rename"][2], "R2.2", where("rename") if "rename" in seen else "objects.rs", "attr|rename", "the serde rename attribute (wire field name) must be emitted unconditionally", instance="rename: unconditional")
-        ok = "skip" in seen and len(seen["skip"][2]) == 2 and any(c_.startswith("if!ctx.serialize_empty_collections()") for c_ in seen["skip"][2]) and any("is_empty_method(" in c_ and c_.startswith("ifletSome(") for c_ in seen["skip"][2])
-        ctx.check(ok, "R2.2", where("skip") if "skip" in seen else "objects.rs", "attr|skip_serializing_if", f"skip_serializing_if must be emitted exactly under !serialize_empty_collections && is_empty_method is Some (conditions: {seen.get('skip', (0, 0, None))[2]})",
-                  instance="skip_serializing_if: !serialize_empty_collections && Some(is_empty)")
-        ok = "default" in seen and seen["default"][2] == ["if!ctx.is_required(field.type_())"]
-        ctx.check(ok, "R2.2", where("default") if "default" in seen else "objects.rs", "attr|default", f"`default` must be emitted exactly under !is_required(field type) (conditions: {seen.get('default', (0, 0, None))[2]})", instance="default: !is_required")
+        def consults(fn, names):
+            """which of `names` the function emitting the template calls (its private helpers and closures included)"""
+            gb = [x for x in cg.bodies if x.kind in ("fn", "assoc_fn") and x.name == fn["name"] and x.file.endswith(fn["file"].split("/src/")[-1])]
+            called = set()
+            for g in gb:
+                eb, fam = inline.expanded_family(cg, g, depth=3, pred=lambda cb: cb.d.get("vis") != "pub" or cb.id.startswith("conjure_codegen::objects::"))
+                for x in fam:
+                    for _, t in x.calls():
+                        if t["call"]["name"] in names:
+                            called.add(t["call"]["name"])
+            return called
+
+        def guard_verdict(k, strict, mentions):
+            """ok / violation / unrecognised(None) for the syntactic conditions of a template"""
+            if k not in seen:
+                return False, "template not found"
+            conds = seen[k][2]
+            if strict(conds):
+                return True, ""
+            if any(m_ in c_ for c_ in conds for m_ in mentions):
+                return False, f"conditions: {conds}"
+            missing = set(mentions) - consults(seen[k][0], set(mentions))
+            if missing:
+                return False, f"the emitting function never consults {sorted(missing)}"
+            return None, f"conditions {conds}: the decision is taken outside the template's syntactic conditions (helper / Option value)"
+        v, why = guard_verdict("skip", lambda cs: len(cs) == 2 and any(c_.startswith("if!ctx.serialize_empty_collections()") for c_ in cs) and any("is_empty_method(" in c_ and c_.startswith("ifletSome(") for c_ in cs),
+                               ("serialize_empty_collections", "is_empty_method"))
+        if v is None:
+            ctx.note(f"R2.2 skip_serializing_if: shape not recognised, no verdict at generator level ({why}); decided on the generated instance by R2.3")
+        else:
+            ctx.check(v, "R2.2", where("skip") if "skip" in seen else "objects.rs", "attr|skip_serializing_if", f"skip_serializing_if must be emitted exactly under !serialize_empty_collections && is_empty_method is Some ({why})",
+                      instance="skip_serializing_if: !serialize_empty_collections && Some(is_empty)")
+        v, why = guard_verdict("default", lambda cs: cs in (["if!ctx.is_required(field.type_())"], ["elseofifctx.is_required(field.type_())"]), ("is_required",))
+        if v is None:
+            ctx.note(f"R2.2 default: shape not recognised, no verdict at generator level ({why}); decided on the generated instance by R2.3")
+        else:
+            ctx.check(v, "R2.2", where("default") if "default" in seen else "objects.rs", "attr|default", f"`default` must be emitted exactly under !is_required(field type) ({why})", instance="default: !is_required")
         ctx.check("transparent" in seen and not seen["transparent"][2], "R2.2", where("transparent") if "transparent" in seen else "aliases.rs", "attr|transparent", "aliases must be serde(transparent) unconditionally", instance="alias: transparent")
     # ---------------- R2.3 instance
     ct = F.crate("conjure_test")
